@@ -289,6 +289,16 @@ class TimedList(Generic[Item]):
     def deepcopy(self):
         return deepcopy(self)
 
+    def __deepcopy__(self, memo):
+        # DataFrame.copy(deep=True) does not copy python objects held in
+        # cells (e.g. Quaver keysound lists), a deep copy must own them too.
+        df = self.df.copy(deep=True)
+        for col in df.columns[df.dtypes == object]:
+            df[col] = pd.Series(
+                [deepcopy(v, memo) for v in df[col]], index=df.index, dtype=object
+            )
+        return self.__class__(df)
+
     def describe(self) -> pd.DataFrame:
         return self.df.describe()
 
